@@ -88,33 +88,46 @@ const M_TOK: [&str; 9] = ["audio", "video", "application", "image", "9", "0", "6
 fn fr_sdp_mline(b: &[u8]) -> Vec<u8> {
     format!("{SDP_HEAD}m={}\r\na=mid:0\r\n", toks(b, &M_TOK, " ")).into_bytes()
 }
-const ATTR_KEYS: [&str; 16] = [
+const ATTR_KEYS: [&str; 22] = [
     "rtpmap", "fmtp", "rtcp-fb", "extmap", "rid", "simulcast", "crypto", "ssrc", "mid", "fingerprint", "candidate", "setup",
-    "msid", "ssrc-group", "sctp-port", "group",
+    "msid", "ssrc-group", "sctp-port", "group", "T38FaxVersion", "T38MaxBitRate", "T38FaxUdpEC", "T38FaxRateManagement",
+    "T38FaxMaxBuffer", "T38FaxMaxDatagram",
 ];
+/// attribute key from the first two bytes (k = b0*9+b1), the rest are value tokens
+fn key_and_rest(b: &[u8]) -> (usize, &[u8]) {
+    match b {
+        [] => (0, &[][..]),
+        [a] => (*a as usize, &[][..]),
+        [a, c, rest @ ..] => (*a as usize * 9 + *c as usize, rest),
+    }
+}
 const ATTR_TOK: [&str; 9] = ["96", "*", "VP8/90000", "apt=96", "send", "1", "-1", "65536", "urn:ietf:params:rtp-hdrext:sdes:mid"];
 /// one attribute line in a video section: key from the first byte, value tokens from the rest
 fn fr_sdp_attr(b: &[u8]) -> Vec<u8> {
-    let (k, rest) = match b.split_first() {
-        Some((k, r)) => (*k, r),
-        None => (0, &[][..]),
-    };
+    let (k, rest) = key_and_rest(b);
     format!(
         "{SDP_HEAD}m=video 9 UDP/TLS/RTP/SAVPF 96 97\r\nc=IN IP4 0.0.0.0\r\na={}:{}\r\na=sendrecv\r\n",
-        ATTR_KEYS[k as usize % ATTR_KEYS.len()],
+        ATTR_KEYS[k % ATTR_KEYS.len()],
+        toks(rest, &ATTR_TOK, " ")
+    )
+    .into_bytes()
+}
+/// one attribute line in a T.38 image section
+fn fr_sdp_image_attr(b: &[u8]) -> Vec<u8> {
+    let (k, rest) = key_and_rest(b);
+    format!(
+        "{SDP_HEAD}m=image 4000 udptl t38\r\nc=IN IP4 127.0.0.1\r\na={}:{}\r\n",
+        ATTR_KEYS[k % ATTR_KEYS.len()],
         toks(rest, &ATTR_TOK, " ")
     )
     .into_bytes()
 }
 /// same attribute at session level
 fn fr_sdp_session_attr(b: &[u8]) -> Vec<u8> {
-    let (k, rest) = match b.split_first() {
-        Some((k, r)) => (*k, r),
-        None => (0, &[][..]),
-    };
+    let (k, rest) = key_and_rest(b);
     format!(
         "{SDP_HEAD}a={}:{}\r\nm=audio 9 RTP/AVP 0\r\n",
-        ATTR_KEYS[k as usize % ATTR_KEYS.len()],
+        ATTR_KEYS[k % ATTR_KEYS.len()],
         toks(rest, &ATTR_TOK, " ")
     )
     .into_bytes()
@@ -168,7 +181,7 @@ const SIM_TOK: [&str; 8] = ["send", "recv", "1", "~2", "1;2", ";", "", "a,b"];
 fn fr_simulcast(b: &[u8]) -> Vec<u8> {
     toks(b, &SIM_TOK, " ").into_bytes()
 }
-const RID_TOK: [&str; 8] = ["1", "send", "recv", "pt=96", "max-width=1280;max-height", ";", "=", "pt=96;;x="];
+const RID_TOK: [&str; 8] = ["1", "sendonly", "recv", "pt=96", "max-width=1280;max-height", ";", "=", "pt=96;;x="];
 fn fr_rid(b: &[u8]) -> Vec<u8> {
     toks(b, &RID_TOK, " ").into_bytes()
 }
@@ -272,6 +285,7 @@ pub fn entries() -> Vec<Entry> {
             .frame("m=tokens", fr_sdp_mline)
             .frame("video a=key:tokens", fr_sdp_attr)
             .frame("session a=key:tokens", fr_sdp_session_attr)
+            .frame("image a=key:tokens", fr_sdp_image_attr)
             .cost(25.0)
             .text()
             .no_sub_in_quick()
@@ -285,6 +299,7 @@ pub fn entries() -> Vec<Entry> {
             .frame("tokens", fr_rid)
             .text()
             .seed("hand:rid", b"1 send pt=100;max-width=1280".to_vec())
+            .seed("hand:rid-sendonly", b"1 sendonly pt=100;max-width=1280".to_vec())
             .seeds(line_seeds("rid")),
         Entry::new("CryptoAttribute::parse", "src/sdp.rs:702", run_crypto, &IDX8)
             .frame("tokens", fr_crypto)
